@@ -143,3 +143,112 @@ def resolved_path(cfg: CFG, node: Node, expr: ast.AST) -> Optional[str]:
     """Canonical access path of *expr* at *node* after resolution (e.g. a local alias of self._x)."""
     r = resolve(cfg, node, expr)
     return cfg.res.path(r) if r is not None else None
+
+
+def unalias(cfg: CFG, node: Node, expr: Optional[ast.AST], depth: int = 6) -> Optional[ast.AST]:
+    """Copy propagation only: a name whose unique reaching definition is a plain copy of another name
+    (`x = y`, the binding of an inlined helper's parameter to the caller's variable) is replaced by
+    that name, provided the source still has the same reaching definitions at the point of use.
+    Unlike `resolve` nothing but names is ever substituted, so role variables keep their names."""
+    if expr is None:
+        return None
+    rd = rdefs(cfg)
+
+    def canon(name: str, at: Node, d: int) -> str:
+        if d <= 0:
+            return name
+        ds = rd.reaching(at, name)
+        if not ds or len(ds) != 1 or ds[0] is None:
+            return name
+        dn = ds[0]
+        v = def_value(cfg, dn)
+        if not isinstance(v, ast.Name) or v.id == name:
+            return name
+        # the source must not have been re-assigned between the copy and the use
+        a = rd.reaching(dn, v.id)
+        b = rd.reaching(at, v.id)
+        if a is None and b is None:
+            return v.id
+        if a is None or b is None:
+            return name
+        if sorted(id(x) for x in a) != sorted(id(x) for x in b):
+            return name
+        return canon(v.id, dn, d - 1)
+
+    class R(ast.NodeTransformer):
+        def visit_Lambda(self, n):
+            return n
+
+        def visit_Name(self, n: ast.Name):
+            if not isinstance(n.ctx, ast.Load):
+                return n
+            c = canon(n.id, node, depth)
+            if c == n.id:
+                return n
+            return ast.copy_location(ast.Name(id=c, ctx=ast.Load()), n)
+    return R().visit(clone(expr))
+
+
+def leaves(cfg: CFG, node: Node, expr: Optional[ast.AST], depth: int = 5, limit: int = 32, env=None) -> List[ast.AST]:
+    """All values *expr* may denote at *node*: names are expanded over *every* reaching definition
+    (not only unique ones), constant subscripts of tuple displays are projected.  Names without a known
+    defining expression (parameters, loop variables) stay as they are.  With a path environment *env*
+    (see paths.envs_at) a tracked name is expanded only to the definition its token on that path names."""
+    out: List[ast.AST] = []
+    rd = rdefs(cfg)
+
+    def env_def(name: str) -> Optional[Node]:
+        if env is None:
+            return None
+        for k, tok in env:
+            if k == name and isinstance(tok, tuple):
+                while tok and tok[0] == 'n':
+                    tok = tok[1]
+                if tok and tok[0] in ('v', 'obj') and isinstance(tok[1], int):
+                    return cfg.nodes[tok[1]]
+        return None
+
+    def project(e: ast.AST) -> ast.AST:
+        if isinstance(e, ast.Subscript) and isinstance(e.slice, ast.Constant) and isinstance(e.slice.value, int) \
+                and isinstance(e.value, ast.Tuple) and -len(e.value.elts) <= e.slice.value < len(e.value.elts):
+            return e.value.elts[e.slice.value]
+        return e
+
+    def go(e: ast.AST, at: Node, d: int, stack: Tuple[int, ...]) -> List[Tuple[ast.AST, Node]]:
+        """(value, node at which its free names are to be read) pairs"""
+        e = expand_inlined(cfg, e)
+        if len(out) > limit:
+            return [(e, at)]
+        if isinstance(e, ast.Name) and isinstance(e.ctx, ast.Load) and d > 0:
+            ds = rd.reaching(at, e.id)
+            if not ds:
+                return [(e, at)]
+            if at is node:
+                ed = env_def(e.id)
+                if ed is not None and any(x is ed for x in ds):
+                    ds = [ed]
+            res: List[Tuple[ast.AST, Node]] = []
+            for dn in ds:
+                if dn is None or dn.id in stack:
+                    res.append((e, at))
+                    continue
+                v = def_value(cfg, dn)
+                if v is None:
+                    res.append((e, at))
+                else:
+                    res.extend(go(v, dn, d - 1, stack + (dn.id,)))
+            return res
+        if isinstance(e, ast.Subscript) and isinstance(e.ctx, ast.Load):
+            res = []
+            for b, at2 in go(e.value, at, d, stack):
+                s2 = ast.Subscript(value=b, slice=e.slice, ctx=ast.Load())
+                p = project(s2)
+                if p is not s2:
+                    res.extend(go(p, at2, d, stack))
+                else:
+                    res.append((s2, at2))
+            return res
+        if isinstance(e, ast.Attribute) and isinstance(e.ctx, ast.Load):
+            return [(ast.Attribute(value=b, attr=e.attr, ctx=ast.Load()), at2) for b, at2 in go(e.value, at, d, stack)]
+        return [(e, at)]
+    return [x for x, _ in go(expr, node, depth, ())] if expr is not None else []
